@@ -130,7 +130,7 @@ class Case:
             alpha = frac * scale
         self.alpha = alpha
         po = dict(s.get("pen_opts", {}))
-        if self.pen_name in ("WeightedL1",) and s.get("zero_weights"):
+        if self.pen_name in ("WeightedL1", "WeightedGroupL2") and s.get("zero_weights"):
             po["zero_weights"] = True
         self.pen_u, self.ref_pen, self.pen_prm = C.make_penalty(
             self.pen_name, rng, self.n_coef, alpha, groups=self.groups, positive=bool(s.get("positive", False)), **po)
